@@ -93,7 +93,10 @@ Clause(f, m, e) ==
     ELSE IF e.err # "" THEN
          IF Intact(f) THEN (IF m.ended THEN "EmptyAfterEnd" ELSE "IntactNeverRaises")
          ELSE IF e.err \notin AcceptErrors
-              THEN (IF MustRaise(f) THEN RaiseClause(f) ELSE "OnlyUrllib3Errors")
+              THEN (IF MustRaise(f) THEN RaiseClause(f)
+                    ELSE IF f.line = "othersize" THEN "ok"      \* a well-formed line announcing another (any) size:
+                                                                \* what follows is not this property's business
+                    ELSE "OnlyUrllib3Errors")
          ELSE "ok"
     ELSE IF m.ended /\ e.len > 0 THEN "EmptyAfterEnd"      \* reads after the end return b""
     ELSE IF e.len > 0 /\ f.checkbytes /\ e.off # m.pos THEN "InOrderNoLossNoDup"
